@@ -11,6 +11,7 @@ deliveries (no block inside `event()`).
 import EdzedModel.Dispatch
 import EdzedProofs.Dispatch
 import EdzedProofs.DispatchTie
+import EdzedProofs.HandlersTie
 import EdzedModel.Gen.Constants
 
 namespace Edzed.Dispatch
@@ -530,5 +531,140 @@ example :
 /-- a conditional event resolving to None through the translated loop -/
 example : (toRes (event (evPrims exLoop 3 { } 0 []) 3 (.cond (.cond .none (.name "a")) .none)
     [("value", .bool true)] exReady)).2 = .ret Val.none := by decide +kernel
+
+/-! ### tie by translation: the table of event handlers (`SBlock.__init_subclass__`)
+
+`event()` looks a handler up in `type(self)._ct_handlers` (the primitive `lookup` of `EventPrims`).  That
+table is built once per class by `SBlock.__init_subclass__`, translated by tools/py2lean_handlers.py into
+EdzedModel/Gen/TranslatedHandlers.lean together with the class hierarchies (MRO, flags, names of every class
+body) of the library classes.  The model of the construction is EdzedModel/Handlers.lean. -/
+
+section handlers
+open Edzed.Handlers Edzed.Gen.TrH
+
+/-- **The class creation as translated IS the model's `buildHandlers`**: for every MRO (and whatever the
+    table held before) the translated `__init_subclass__` either raises TypeError – exactly when an add-on
+    follows SBlock in the MRO – or leaves exactly the model's `handlerTable` -/
+theorem translated_handlers_init_subclass_is_model (mro : List ClassD) (t0 : Table) :
+    toBuild (initSubclass hPrims mro t0) = buildHandlers mro := by
+  unfold initSubclass buildHandlers
+  have h := for1_is_model mro false []
+  simp only [orderOkFrom, Bool.false_eq_true, if_false] at h
+  have hsup : hPrims.superInitSubclass t0 = (t0, .next ()) := rfl
+  have hres : ∀ t : Table, hPrims.tableReset t = (([] : Table), Out.next ()) := fun _ => rfl
+  simp only [M.bind, hsup, hres]
+  cases ho : orderOk mro with
+  | true =>
+    rw [h.1 ho]
+    simp [toBuild, M.pure, handlerTable]
+  | false =>
+    have := h.2 ho
+    generalize initSubclass_for1 hPrims mro false [] = p at this
+    obtain ⟨t, o⟩ := p
+    simp only [] at this
+    subst this
+    simp [toBuild]
+
+/-- the table maps an event type to the FIRST `_event_<etype>` in MRO order among SBlock, its subclasses
+    and the add-ons: a handler defined in a subclass or in an add-on overrides the inherited one, a name
+    without the prefix is no handler -/
+theorem translated_handlers_first_definition_in_mro_wins (mro : List ClassD) (e : String) :
+    (handlerTable mro).lookup e = firstInMro mro e := by
+  have := lookup_fold mro [] e
+  simpa [handlerTable, Table.lookup] using this
+
+/-- an add-on that follows SBlock in the MRO makes the class creation fail -/
+theorem translated_handlers_addon_after_sblock_is_refused (pre post : List ClassD) (sb a : ClassD)
+    (hsb : sb.isSBlock = true) (hpre : ∀ c ∈ pre, c.isSBlock = false) (ha : a ∈ post) (haa : a.addon = true) :
+    buildHandlers (pre ++ sb :: post) = .error "TypeError" := by
+  unfold buildHandlers
+  rw [orderOk_split pre post sb hsb hpre]
+  have : post.all (fun x => !x.addon) = false := by
+    rw [Bool.eq_false_iff]
+    intro h
+    have := List.all_eq_true.1 h a ha
+    simp [haa] at this
+  simp [this]
+
+/-- … and with the add-ons in front the class is created -/
+theorem translated_handlers_addons_first_is_accepted (pre post : List ClassD) (sb : ClassD)
+    (hsb : sb.isSBlock = true) (hpre : ∀ c ∈ pre, c.isSBlock = false) (hpost : ∀ c ∈ post, c.addon = false) :
+    buildHandlers (pre ++ sb :: post) = .ok (handlerTable (pre ++ sb :: post)) := by
+  unfold buildHandlers
+  rw [orderOk_split pre post sb hsb hpre]
+  have : post.all (fun x => !x.addon) = true := by
+    rw [List.all_eq_true]; intro x hx; simp [hpost x hx]
+  simp [this]
+
+/-- the model's construction, run on the REAL class hierarchies (generated from the live classes), gives
+    the very keys Python has in `_ct_handlers`, in the same order -/
+theorem translated_handlers_library_tables :
+    (handlerTable mroInput).map (·.1) = keysInput ∧ (handlerTable mroCounter).map (·.1) = keysCounter
+    ∧ (handlerTable mroOutputFunc).map (·.1) = keysOutputFunc
+    ∧ (handlerTable mroOutputAsync).map (·.1) = keysOutputAsync
+    ∧ (handlerTable mroControlBlock).map (·.1) = keysControlBlock
+    ∧ (handlerTable mroRepeat).map (·.1) = keysRepeat ∧ (handlerTable mroTimerBlk).map (·.1) = keysTimerBlk
+    ∧ (handlerTable mroTimeDate).map (·.1) = keysTimeDate ∧ (handlerTable mroTimeSpan).map (·.1) = keysTimeSpan
+    ∧ orderOk mroInput = true ∧ orderOk mroCounter = true ∧ orderOk mroOutputFunc = true
+    ∧ orderOk mroOutputAsync = true ∧ orderOk mroTimerBlk = true := by decide +kernel
+
+/-- which method handles `put`: the class's own -/
+theorem translated_handlers_put_is_own_method :
+    (handlerTable mroInput).lookup "put" = some "Input._event_put"
+    ∧ (handlerTable mroCounter).lookup "put" = some "Counter._event_put"
+    ∧ (handlerTable mroOutputFunc).lookup "put" = some "OutputFunc._event_put" := by decide +kernel
+
+/-- the hierarchy a kind of block of the dispatch model stands for -/
+def mroOfKind : Dispatch.BKind → Option (List ClassD)
+  | .input => some mroInput
+  | .counter => some mroCounter
+  | .outfunc => some mroOutputFunc
+  | _ => Option.none
+
+/-- **The table the translated `event()` consults IS the table built by the translated
+    `__init_subclass__`**: for Input, Counter and OutputFunc an event type has a handler in the dispatch
+    model (`lookup` of `evPrims` = `lookupHandler`, tables generated by tools/extract.py from
+    `_ct_handlers`) iff the table built from the class hierarchy has one -/
+theorem translated_handlers_event_consults_built_table (k : Dispatch.BKind) (mro : List ClassD)
+    (hk : mroOfKind k = some mro) (e : String) :
+    (Dispatch.lookupHandler k (.name e)).isSome = ((handlerTable mro).lookup e).isSome := by
+  have hI : Gen.inputHandlers.map (·.1) = (handlerTable mroInput).map (·.1) := by decide +kernel
+  have hO : Gen.outputFuncHandlers.map (·.1) = (handlerTable mroOutputFunc).map (·.1) := by decide +kernel
+  have hC : ∀ e, (Gen.counterHandlers.map (·.1)).contains e = ((handlerTable mroCounter).map (·.1)).contains e := by
+    have h1 : Gen.counterHandlers.map (·.1) = ["dec", "inc", "put", "reset"] := by decide +kernel
+    have h2 : (handlerTable mroCounter).map (·.1) = ["inc", "dec", "put", "reset"] := by decide +kernel
+    intro e
+    rw [h1, h2]
+    simp only [List.contains_cons, List.contains_nil, Bool.or_false]
+    cases (e == "dec") <;> cases (e == "inc") <;> rfl
+  cases k with
+  | input =>
+    simp only [mroOfKind, Option.some.injEq] at hk; subst hk
+    simp only [Dispatch.lookupHandler, Dispatch.handlersOf, contains_keys, find_isSome_contains, hI]
+  | counter =>
+    simp only [mroOfKind, Option.some.injEq] at hk; subst hk
+    simp only [Dispatch.lookupHandler, Dispatch.handlersOf, contains_keys, find_isSome_contains]
+    exact hC e
+  | outfunc =>
+    simp only [mroOfKind, Option.some.injEq] at hk; subst hk
+    simp only [Dispatch.lookupHandler, Dispatch.handlersOf, contains_keys, find_isSome_contains, hO]
+  | probe => simp [mroOfKind] at hk
+  | fsm => simp [mroOfKind] at hk
+
+/-- non-vacuity: `Sub(AddonX, Input)` – the subclass overrides `_event_put`, the add-on contributes
+    `_event_x`, `helper` is no handler; the same classes with the add-on after the SBlock side are refused -/
+example :
+    let sub : ClassD := ⟨"Sub", false, true, false, ["helper", "_event_put"]⟩
+    let addon : ClassD := ⟨"AddonX", false, false, true, ["_event_x", "_event_put"]⟩
+    let input : ClassD := ⟨"Input", false, true, false, ["_event_put"]⟩
+    let sblock : ClassD := ⟨"SBlock", true, true, false, ["event", "_event"]⟩
+    let block : ClassD := ⟨"Block", false, false, false, ["_event_ignored"]⟩
+    (toBuild (initSubclass hPrims [sub, addon, input, sblock, block] [("stale", "x")])).toOption
+      = some [("put", "Sub._event_put"), ("x", "AddonX._event_x")]
+    ∧ errOf (buildHandlers [sub, input, sblock, addon, block]) = some "TypeError"
+    ∧ errOf (toBuild (initSubclass hPrims [sub, input, sblock, addon, block] [])) = some "TypeError" := by
+  decide +kernel
+
+end handlers
 
 end Edzed.TrTie
